@@ -24,8 +24,12 @@ macro_rules! dispatch {
             "C07" => $f(&props::iter::MultiProp { id: "C07" } $(, $arg)*),
             "C08" => $f(&props::iter::MultiProp { id: "C08" } $(, $arg)*),
             "C09" => $f(&props::iter::MultiProp { id: "C09" } $(, $arg)*),
+            "C10" => $f(&props::hist::HistProp $(, $arg)*),
+            "C11" => $f(&props::hist::StopProp $(, $arg)*),
             "C12" => $f(&props::opt::BoundsProp $(, $arg)*),
             "C17" => $f(&props::expl::ExplProp $(, $arg)*),
+            "C18" => $f(&props::branch::BranchProp $(, $arg)*),
+            "C19" => $f(&props::drcp::DrcpProp $(, $arg)*),
             other => {
                 eprintln!("unknown property {other}");
                 std::process::exit(2)
